@@ -74,6 +74,25 @@ public:
     static const vec3& fnormal(const face& f){ return f.normal_; }
     static double farea(const face& f){ return f.area_; }
     static void set_ftype(face& f, unsigned short t){ f.type_id_ = t; }
+    // k released face slots in FRONT of the live ones, exactly as edge collapses leave slots behind until the next rebase
+    // (slot unused + its index in the free queue; local face ids = slot indices; edge index rebuilt over the live faces)
+    static void add_front_holes(cell& c, unsigned k){
+        std::vector<face> nf;
+        for(unsigned i = 0; i < k; i++){ face d = c.face_lst_[0]; d.is_used_ = false; nf.push_back(d); }
+        nf.insert(nf.end(), c.face_lst_.begin(), c.face_lst_.end());
+        c.face_lst_ = nf;
+        for(size_t i = 0; i < c.face_lst_.size(); i++) c.face_lst_[i].local_face_id_ = (unsigned) i;
+        for(unsigned i = 0; i < k; i++) c.free_face_queue_.push_back(i);
+        c.edge_set_.clear();
+        for(const face& f : c.face_lst_){
+            if(!f.is_used_) continue;
+            const unsigned a[3] = {f.n1_id_, f.n2_id_, f.n3_id_};
+            for(int q = 0; q < 3; q++){
+                auto it = c.edge_set_.emplace(a[q], a[(q + 1) % 3]).first;
+                const_cast<edge&>(*it).add_face(f.local_face_id_);
+            }
+        }
+    }
     static unsigned short ftype(const face& f){ return f.type_id_; }
 #if CONTACT_MODEL_INDEX == 1 || CONTACT_MODEL_INDEX == 2
     static vec3 nnormal(const node& n){ return n.normal_; }
@@ -130,6 +149,7 @@ struct Req {
     long max_pairs = 0;
     std::vector<cell_ptr> cells;
     std::vector<std::vector<unsigned short>> ftypes;   // requested face type of every face
+    std::vector<unsigned> holes;                       // released face slots in front of the live faces of every cell (prep bit 1)
 };
 
 static std::string h3(const vec3& v){ return to_hex(v.dx()) + " " + to_hex(v.dy()) + " " + to_hex(v.dz()); }
@@ -176,11 +196,15 @@ static bool parse(const std::vector<std::string>& w, Req& r){
         }
         c->set_local_id((unsigned) ci);
         c->initialize_cell_properties(true);
+        if(cell_tester::faces(*c).size() != nf || cell_tester::nodes(*c).size() != nn) return false;
+        // prep bit 1: the cell carries released face slots in front of its live faces (request face f = slot f + holes)
+        const unsigned holes = (r.prep & 2) ? 1u + (unsigned) (ci % 3) : 0u;
+        if(holes) cell_tester::add_front_holes(*c, holes);
         auto& F = cell_tester::faces(*c);
-        if(F.size() != nf || cell_tester::nodes(*c).size() != nn) return false;
-        for(unsigned long f = 0; f < nf; f++) cell_tester::set_ftype(F[f], ftype[f]);
+        for(unsigned long f = 0; f < nf; f++) cell_tester::set_ftype(F[f + holes], ftype[f]);
         r.cells.push_back(c);
         r.ftypes.push_back(ftype);
+        r.holes.push_back(holes);
     }
     return k == w.size();
 }
@@ -190,13 +214,13 @@ static bool parse(const std::vector<std::string>& w, Req& r){
 static void prelude(Req& r){
     for(size_t i = 0; i < r.cells.size(); i++){
         auto& F = cell_tester::faces(*r.cells[i]);
-        for(size_t f = 0; f < F.size(); f++) cell_tester::set_ftype(F[f], r.ftypes[i][f]);
+        for(size_t f = 0; f < r.ftypes[i].size(); f++) cell_tester::set_ftype(F[f + r.holes[i]], r.ftypes[i][f]);
         r.cells[i]->update_face_types();
     }
 }
 static void prep_normals(Req& r){
 #if CONTACT_MODEL_INDEX == 1 || CONTACT_MODEL_INDEX == 2
-    if(r.prep == 1) for(auto& c : r.cells) c->compute_node_curvature_and_normals();
+    if(r.prep & 1) for(auto& c : r.cells) c->compute_node_curvature_and_normals();
 #endif
 }
 
